@@ -76,10 +76,16 @@ def enumerate_cases(tier: str, seed: int) -> list[dict[str, Any]]:
         if tier == "quick":
             n = per_family.get(tp["_family"], 0)
             per_family[tp["_family"]] = n + 1
-            if n >= 1:
+            pins = tp.get("opset_version") is not None
+            if n >= 1 and not pins:
                 continue
             extra = [25, 26][(stable_hash(tp["_pid"]) + seed) % 2]
             opsets = [21, 24, extra, NEWEST]
+            if pins:
+                # an opset-gated lowering: probe both sides of its gate and the default
+                own_ = int(tp["opset_version"])
+                opsets += [23, own_ - 1, own_ + 1]
+                opsets = [o for o in opsets if 21 <= o <= NEWEST]
         else:
             opsets = list(CLAIMED)
             if (stable_hash(tp["_pid"]) + seed) % 4 == 0:
